@@ -318,11 +318,12 @@ class JSObject:
         return key in self._properties
 
     def delete(self, key: str) -> bool:
-        """Delete a property."""
-        if key in self._properties:
-            del self._properties[key]
-            return True
-        return False
+        """Delete a property (data or accessor); True if there was one."""
+        found = key in self._properties or key in self._getters or key in self._setters
+        self._properties.pop(key, None)
+        self._getters.pop(key, None)
+        self._setters.pop(key, None)
+        return found
 
     def keys(self) -> List[str]:
         """Get own enumerable property keys."""
